@@ -25,7 +25,7 @@ unsafe fn check_log<const M: usize>(layout: Layout, limit: Option<usize>, held: 
     vassert!(ra.is_power_of_two() && ra >= 16 && ra >= M && ra >= layout.align(),
             "NEVER: [C04] chunk requested with an alignment below max(16, MIN_ALIGN, request)");
     vassert!(rs >= FOOTER_SIZE && rs - FOOTER_SIZE >= layout.size(), "NEVER: [C01] chunk requested that cannot hold the request");
-    vassert!(rs <= isize::MAX as usize, "NEVER: [C19] chunk request above isize::MAX reached the global allocator");
+    vassert!(rs <= isize::MAX as usize, "NEVER: [C09,C19] chunk request above isize::MAX reached the global allocator (invalid Layout)");
     if let Some(l) = limit {
         // bytes held for allocation after the acquisition = held + usable size of the new chunk
         let usable = rs - FOOTER_SIZE;
